@@ -261,6 +261,10 @@ func qeMain(args []string) int {
 					if rnd.chance(1, 3) {
 						bk.Avail = false
 						bk.Error = vPick(rnd, []string{"connection refused", "broken: got garbage"})
+					} else if rnd.chance(1, 4) {
+						// stale but still served: the model sees an available backend
+						bk.Warn = true
+						bk.Error = "connection timed out"
 					}
 				}
 			}
